@@ -15,6 +15,10 @@ import (
 type Fact struct {
 	Expr  ast.Expr
 	Truth bool
+	// Derived: not a condition written in this function but something a helper's outcome
+	// implies (see Func.Expand). Rules that judge the vocabulary of the guards written at a
+	// site ignore derived facts; rules that need a fact to hold accept them.
+	Derived bool
 }
 
 // Func is the analysed form of one function body (a FuncDecl or a FuncLit).
@@ -360,37 +364,41 @@ func (f *Func) edgeDominates(d, s, target *cfg.Block) bool {
 }
 
 func (f *Func) decompose(e ast.Expr, truth bool, out []Fact, depth int) []Fact {
+	return f.decomposeD(e, truth, out, depth, false)
+}
+
+func (f *Func) decomposeD(e ast.Expr, truth bool, out []Fact, depth int, derived bool) []Fact {
 	if depth > 8 {
 		return out
 	}
 	e = ast.Unparen(e)
-	out = append(out, Fact{e, truth})
+	out = append(out, Fact{Expr: e, Truth: truth, Derived: derived})
 	if f.Expand != nil && f.expanding < 3 && depth < 6 {
 		f.expanding++
-		extra := f.Expand(f, Fact{e, truth})
+		extra := f.Expand(f, Fact{Expr: e, Truth: truth})
 		f.expanding--
 		for _, x := range extra {
-			out = f.decompose(x.Expr, x.Truth, out, depth+1)
+			out = f.decomposeD(x.Expr, x.Truth, out, depth+1, true)
 		}
 	}
 	switch x := e.(type) {
 	case *ast.UnaryExpr:
 		if x.Op == token.NOT {
-			return f.decompose(x.X, !truth, out, depth+1)
+			return f.decomposeD(x.X, !truth, out, depth+1, derived)
 		}
 	case *ast.BinaryExpr:
 		if x.Op == token.LAND && truth {
-			out = f.decompose(x.X, true, out, depth+1)
-			return f.decompose(x.Y, true, out, depth+1)
+			out = f.decomposeD(x.X, true, out, depth+1, derived)
+			return f.decomposeD(x.Y, true, out, depth+1, derived)
 		}
 		if x.Op == token.LOR && !truth {
-			out = f.decompose(x.X, false, out, depth+1)
-			return f.decompose(x.Y, false, out, depth+1)
+			out = f.decomposeD(x.X, false, out, depth+1, derived)
+			return f.decomposeD(x.Y, false, out, depth+1, derived)
 		}
 	case *ast.Ident:
 		if obj := f.Info.ObjectOf(x); obj != nil && f.assigns[obj] == 1 {
 			if def, ok := f.boolDef[obj]; ok {
-				return f.decompose(def, truth, out, depth+1)
+				return f.decomposeD(def, truth, out, depth+1, derived)
 			}
 		}
 	}
